@@ -68,19 +68,10 @@ def _program(draw):
     nested = None
     if prob(draw, 0.5):
         nested = {"a": draw(st.integers(0, len(topo) - 1)), "len": draw(st.integers(1, 3)), "inner_bind": prob(draw, 0.7), "select_out": draw(st.booleans())}
-        # Inside a nested graph a defaulted input is resolved ONCE at the wrapper and the same object is handed to every inner
-        # consumer, so two inner nodes that both mutate it see each other's marks in completion order (observation O1 in
-        # DESIGN.md section 5; a schedule effect inside one run, not a leak between runs): keep one mutating consumer per wrapper.
-        S = topo[nested["a"]: nested["a"] + nested["len"]]
-        for p in mut_params:
-            users = [x for x in S if p in x["params"]]
-            if len(users) >= 2:
-                nested = None
-                break
+        # (several inner nodes may mutate the same defaulted input: each gets its own copy, as in the flat graph - F29, fixed)
     if nested is not None and prob(draw, 0.4):
-        # the nested graph is a MAPPING node over a plain input of its own (ONE item per run: the items of one mapping node share
-        # a single copy of a defaulted input today - finding F29, reported by C10 - which is an effect inside one run, not between
-        # runs); a mutable-default input that only its own nodes take may be renamed on the wrapper
+        # the nested graph is a MAPPING node over a plain input of its own (two items per run; every item starts from a pristine
+        # default - F29, fixed); a mutable-default input that only its own nodes take may be renamed on the wrapper
         nested["map"] = True
         nested["inner_bind"] = False
         nested["rename_default"] = draw(st.booleans())
@@ -173,7 +164,7 @@ class Prog:
     def values(self, variant):
         g = self.graph
         mp = getattr(self, "mapped_param", None)
-        return {p: (UNP if p == "unp" else ([("in", p, variant)] if p == mp else ("in", p, variant))) for p in g.inputs.required}
+        return {p: (UNP if p == "unp" else ([("in", p, variant), ("in", p, variant + 1)] if p == mp else ("in", p, variant))) for p in g.inputs.required}
 
     def twin_form(self, variant, kind, values=None, override=()):
         """First run of a freshly built copy of the same program (optionally with explicit values; `override` names bound
